@@ -20,6 +20,7 @@ import os
 import shutil
 import tempfile
 
+import itertools
 import numpy as rnp
 import z3
 from pyvc.core import ctx, sreal, land, lift, SNum, SCplx
@@ -145,7 +146,7 @@ _energy_unit((2, 2), 2, 0)
 _energy_unit((2, 2, 3, 3), 2, 2)
 
 
-@unit("C16", "EnergyResult.transform distributes over +", scope="shape:2x3 (rank 1) and 2x3x3 (rank 2); symbolic operation, TR/Inv flags enumerated", expect_min=3, timeout_ms=60000)
+@unit("C16", "EnergyResult.transform distributes over +", scope="shape:2 (rank 0), 2x3 (rank 1) and 2x3x3 (rank 2); symbolic operation, TR/Inv flags enumerated", expect_min=3, timeout_ms=60000)
 def _transform(U):
     from contracts.C09 import _build, _make, _T
     PS, fns = _build(U)
@@ -155,7 +156,7 @@ def _transform(U):
     def body():
         d1 = (1, -1)[ctx().choose(2, "det")]
         t1 = bool(ctx().choose(2, "TR"))
-        rank = 1 + ctx().choose(2, "rank")
+        rank = ctx().choose(3, "rank")
         s1, R1 = _make(PS, "R", d1, t1)
         shape = (2,) + (3,) * rank
         tTR, tInv = _T(factor=-1), (_T(transpose_axes=(1, 0)) if rank == 2 else _T())
@@ -168,7 +169,10 @@ def _transform(U):
             def transform_tensor(self, data, rank_, transformTR=None, transformInv=None):
                 calls.append((rank_, transformTR, transformInv))
                 return s1.transform_tensor(data, rank_, transformTR, transformInv)
+        a_before, b_before = a.data.copy(), b.data.copy()
         ta, tb = tr(a, Spy()), tr(b, Spy())
+        U.ensure("transform leaves its operand unchanged and returns fresh data (frame: nothing but the new result is written)",
+                 _eq(a.data, a_before) and _eq(b.data, b_before) and ta.data is not a.data and not rnp.shares_memory(ta.data, a.data))
         ab = _er("ab", shape, 1, rank, transformTR=tTR, transformInv=tInv)
         ab.data = a.data + b.data
         tab = tr(ab, Spy())
@@ -231,47 +235,54 @@ def _void_dict(U):
     U.run(body, check_feasible=False)
 
 
-@unit("C16", "K__Result arithmetic", scope="shape:2 and 3 k-points x 2 bands x rank 1", expect_min=5)
+@unit("C16", "K__Result arithmetic", scope="shape:results of 1, 2 and 3 k-point blocks x 2 bands x rank 1", expect_min=8)
 def _kres(U):
+    import abc
     sh = Shim()
+    g = dict(np=sh, abc=abc, itertools=itertools, transform_from_dict=None, print=lambda *a, **k: None)
+    Base = type("Result", (), {})
+    KR = U.klass(FK, "K__Result", globs=g, bases=(Base,), only=("__init__", "fit", "data", "nk", "__add__", "add", "__mul__", "__sub__", "__truediv__"))
+    KB = U.klass(FK, "KBandResult", globs=g, bases=(KR,), only=("get_rank", "fit", "nband"))
+    for f_ in KR.__dict__.values():
+        fr = getattr(f_, "fget", f_)
+        if hasattr(fr, "__globals__"):
+            fr.__globals__["KBandResult"] = KB
 
-    class KR(Made):
-        def __init__(self, data=None, **kw):
-            super().__init__(**kw)
-            self.data_list = data if isinstance(data, list) else [data]
-
-        @property
-        def data(self):
-            if len(self.data_list) > 1:
-                self.data_list = [rnp.vstack(self.data_list)]
-            return self.data_list[0]
-        fit = lambda s_, o: True
-    g = dict(np=sh, KBandResult=lambda **kw: KR(**kw))
-    add = U.fn(FK, "K__Result.__add__", globs=g, model=False)
-    iadd = U.fn(FK, "K__Result.add", globs=g, model=False)
-    mul = U.fn(FK, "K__Result.__mul__", globs=g, model=False)
-    sub = U.fn(FK, "K__Result.__sub__", globs=g, model=False)
-    div = U.fn(FK, "K__Result.__truediv__", globs=g, model=False)
+    def blocks(name, sizes):
+        """a result made of len(sizes) blocks the way run() makes it: by `+` of per-K-point results (data not read in between)"""
+        kw = dict(transformTR="TR", transformInv="INV", rank=1, other_properties={"c": 1})
+        parts = [sym_real_array("%s%d" % (name, i), (n, 2, 3)) for i, n in enumerate(sizes)]
+        r = KB(parts[0], **kw)
+        for p_ in parts[1:]:
+            r = r + KB(p_, **kw)
+        return r, rnp.vstack(parts)
 
     def body():
-        kw = dict(transformTR="TR", transformInv="INV", rank=1, other_properties={"c": 1})
-        a = KR(data=sym_real_array("a", (2, 2, 3)), **kw)
-        b = KR(data=sym_real_array("b", (3, 2, 3)), **kw)
-        KR.__mul__ = lambda s_, c: mul(s_, c)
-        r = add(a, b)
-        U.ensure("K__Result +: concatenation along k (a's k-points then b's), nk additive", _eq(r.data[:2], a.data) and _eq(r.data[2:], b.data) and r.data.shape[0] == 5)
-        U.ensure("K__Result +: transformations, rank and other properties kept", r.kw["transformTR"] == "TR" and r.kw["transformInv"] == "INV" and r.kw["rank"] == 1 and r.kw["other_properties"] == {"c": 1})
-        m = mul(a, 3.0)
-        U.ensure("K__Result *: element-wise", _eq(m.data, a.data * 3.0))
-        a2 = KR(data=sym_real_array("a2", (2, 2, 3)), **kw)
-        c2 = KR(data=sym_real_array("c2", (2, 2, 3)), **kw)
-        old = a2.data.copy()
-        iadd(a2, c2)
-        U.ensure("K__Result.add: in-place element-wise sum", _eq(a2.data, old + c2.data))
-        s_ = sub(a, c2)
-        U.ensure("K__Result -: element-wise", _eq(s_.data, a.data - c2.data))
-        d = div(a, 4.0)
-        U.ensure("K__Result / number returns an unscaled copy (documented quirk: images are concatenated, not averaged)", _eq(d.data, a.data))
+        layout = [(2,), (2, 3), (1, 2, 2)][ctx().choose(3, "block layout")]
+        a, A = blocks("a", layout)
+        b, B = blocks("b", layout)
+        U.ensure("K__Result +: concatenation along k in order of addition, nk additive", a.nk == sum(layout) and _eq(a.data, A) and a.data.shape[0] == sum(layout))
+        a, A = blocks("a", layout)                       # fresh (reading .data above merged the blocks)
+        r = a + b
+        U.ensure("K__Result +: (a+b) = a's k-points then b's; transformations, rank and other properties kept",
+                 _eq(r.data, rnp.vstack([A, B])) and r.transformTR == "TR" and r.transformInv == "INV" and r.rank == 1 and r.other_properties == {"c": 1})
+        a, A = blocks("a", layout)
+        m = a * 3.0
+        U.ensure("K__Result *: every element scaled (all blocks)", m.nk == sum(layout) and _eq(m.data, A * 3.0))
+        a, A = blocks("a", layout)
+        b, B = blocks("b", layout)
+        s_ = a - b
+        U.ensure("K__Result -: element-wise over ALL k-points (all blocks)", tuple(s_.data.shape) == tuple(A.shape) and _eq(s_.data, A - B))
+        a, A = blocks("a", layout)
+        b, B = blocks("b", layout)
+        a.add(b)
+        U.ensure("K__Result.add: in-place element-wise sum over all blocks", tuple(a.data.shape) == tuple(A.shape) and _eq(a.data, A + B))
+        a, A = blocks("a", layout)
+        d = a / 4.0
+        U.ensure("K__Result / number returns an unscaled copy (documented quirk: images are concatenated, not averaged)", _eq(d.data, A))
+        a, A = blocks("a", layout)
+        c_ = KB(sym_real_array("c", (2, 3, 3)), transformTR="TR", transformInv="INV", rank=1)
+        U.ensure("results with different band counts or transformations do not fit", a.fit(c_) is False and a.fit(KB(sym_real_array("e", (2, 2, 3)), transformTR="X", transformInv="INV", rank=1)) is False)
     U.run(body, check_feasible=False)
 
 
@@ -284,8 +295,9 @@ def _real_save(rng, n):
     tlist = [transform_ident, transform_odd, transform_trans, Transform(factor=-1, conj=True), Transform(swap_axes=(0, 1)), Transform(factor=-1, transpose_axes=(1, 0))]
     for t in range(9 if n <= 30 else 30):
         rs = rnp.random.RandomState(rng.randint(0, 10 ** 6))
-        nE = 1 + t % 2
+        nE = 1 + t % 2 if t != 7 else 3                # one case with three energy axes (more axes than default titles)
         rank = 2 if t < len(tlist) else t % 3          # the first cases: every pre-defined transform on a rank-2 result
+        titles = ["Efermi", "Omega"][:nE] if t not in (7, 8) else (None if t == 7 else ["Efermi"])       # fewer titles than axes: padded, not truncated
         Es = [rnp.linspace(-1, 1, 3 + i) for i in range(nE)]
         cplx = t % 2 == 1
         data = rs.rand(*([len(E) for E in Es] + [3] * rank)) + (1j * rs.rand(*([len(E) for E in Es] + [3] * rank)) if cplx else 0)
@@ -296,7 +308,8 @@ def _real_save(rng, n):
         d = tempfile.mkdtemp(prefix="verif_c16_")
         try:
             with contextlib.redirect_stdout(io.StringIO()):
-                r = EnergyResult(Es, data, transformTR=tTR, transformInv=tInv, rank=rank, E_titles=["Efermi", "Omega"][:nE], comment="comment %d\nline 2" % t, save_mode="bin")
+                kw_t = {} if titles is None else dict(E_titles=titles)
+                r = EnergyResult(Es, data, transformTR=tTR, transformInv=tInv, rank=rank, comment="comment %d\nline 2" % t, save_mode="bin", **kw_t)
                 r.save(os.path.join(d, "res"))
                 b = EnergyResult.from_npz(os.path.join(d, "res.npz"))
             bad = []
